@@ -124,6 +124,7 @@ func propC28PeerSyncStateMachine(t testing.TB) {
 		lastRequested := map[string]time.Duration{}
 		var oplog []string
 		classes := map[string]bool{}
+		lastSent := map[string]*peersync.PeerCapabilitySnapshot{}
 		susp := map[string]bool{ids[3]: true} // quarantined peers (one from the start, more at run time)
 
 		advance := func(d time.Duration) {
@@ -191,6 +192,25 @@ func propC28PeerSyncStateMachine(t testing.TB) {
 					LBTCSwapInPremiumRatePPM:  rapid.SampledFrom([]int64{0, 7}).Draw(t, "r3"),
 					LBTCSwapOutPremiumRatePPM: rapid.SampledFrom([]int64{0, 1000}).Draw(t, "r4"),
 				}
+				// often the next poll of a peer differs from its previous one in a single field only
+				if prev := lastSent[id]; prev != nil && rapid.IntRange(0, 2).Draw(t, "variation") == 0 {
+					v := *prev
+					switch rapid.SampledFrom([]string{"peer_allowed", "peer_allowed", "rate", "assets", "same"}).Draw(t, "variedField") {
+					case "peer_allowed":
+						v.PeerAllowed = !v.PeerAllowed
+					case "rate":
+						v.LBTCSwapOutPremiumRatePPM += 1
+					case "assets":
+						if len(v.Assets) == 1 {
+							v.Assets = []string{"BTC", "LBTC"}
+						} else {
+							v.Assets = []string{"BTC"}
+						}
+					}
+					snap = &v
+					classes["single-field-variation"] = true
+				}
+				lastSent[id] = snap
 				payload, _ := json.Marshal(snap)
 				typ := messages.MESSAGETYPE_POLL
 				if op == "request_poll" {
